@@ -8,6 +8,12 @@
  C. spec/timer/MonotonicClock.tla     <-> linuxos::monotonic_clock::time_point: TLC proves the transcription of
     normalize/+=/-=/-/< exact against integer semantics at a small base, enumerates boundary operands at base 10^9;
     each (operands, expected) edge is one call of the real operator; results -> ClockMon.
+ D. spec/timer/IntrusiveHeap.tla      <-> detail/intrusive_heap.hpp (the io contexts' timer heap): TLC-enumerated insert/remove/pop
+    histories replayed on the real template; observed order/links -> HeapMon.
+ E. spec/timer/IoTimers.tla           <-> schedule_at on io_epoll_context / io_uring_context (real timerfd / IORING_OP_TIMEOUT, real
+    time): TLC invariants incl. the elapsed-vs-cancelled fetch_add election; scenario scripts run on the real contexts (remote and
+    local starts, stop before start / pending / racing expiry with the election order forced at timer.* schedule points / local
+    stop), events carry the context's own now(), every trace -> TimerMon (rt = 1).
 ASan/UBSan/crash events are violations for C07 (the statement is about "no reference afterwards")."""
 import itertools, json, os, sys, threading, time
 
@@ -521,16 +527,21 @@ def iot_scenarios(ctx):
     """Scenarios shared by spec/timer/IoTimers and driver_iot.cpp (ctx / bmode / race / fine are driver-only fields)."""
     out = []
 
-    def add(due, arm=None, on=None, stop=0, stop_at=NONE, bmode="after", race="free", fine=None, tag=""):
+    def add(due, arm=None, on=None, stop=0, stop_at=NONE, bmode="after", race="free", fine=None, rel=None, tag=""):
         n = len(due)
         out.append(dict(due=list(due), arm=list(arm or [0] * n), on=[list(x) for x in (on or [[] for _ in range(n)])],
-                        stop=stop, stopAt=stop_at, bmode=bmode, race=race, fine=list(fine or [0] * n), tag=tag))
+                        stop=stop, stopAt=stop_at, bmode=bmode, race=race, fine=list(fine or [0] * n), rel=list(rel or [0] * n), tag=tag))
     on_ = lambda n, k, acts: [acts if i == k else [] for i in range(1, n + 1)]
     # --- core
     add([-1, 0, 0], tag="ties-overdue")
     add([2, 2, 2, 1], tag="ties-future")
     add([1, 2, 2, 3], fine=[0, 0, 400, 0], tag="close-pair")
     add([2, 1, 3, 1], tag="unordered")
+    # timers that are almost due when submitted (due = clock at start + 1.5 ms): the submission itself makes the
+    # context look at its timers, nothing may complete them before the 1.5 ms have passed
+    add([1, 1], arm=[0, 1], on=on_(2, 1, [["arm", 2]]), rel=[0, 1], fine=[0, 1500], tag="near-due-local-start")
+    add([1, 1, 1], arm=[0, 1, 1], on=on_(3, 1, [["arm", 2], ["arm", 3]]), rel=[0, 1, 1], fine=[0, 1500, 900], tag="near-due-local-starts")
+    add([0], rel=[1], fine=[1500], tag="near-due-remote-start")
     for bm in ("before", "with", "after"):
         add([9], stop=1, stop_at=0, bmode=bm, tag="stop-%s-far" % bm)
         add([2, 1], stop=1, stop_at=0, bmode=bm, tag="stop-%s" % bm)
@@ -693,6 +704,9 @@ def run(ctx):
                "plus the stop source's own schedule points in DFS/random mode)")
     rep.assume("virtual steady_clock: 1 tick = 1 ns, advanced only when no thread can move (real runs) / additionally at <= 2 arbitrary points (TLC)")
     rep.assume("<= 4 operations per context, one remote request_stop per scenario; one or two arming threads")
+    rep.assume("io contexts: real time (30 ms per tick, patience 3 s before time is declared to have passed); executions are recorded only if "
+               "every remote start was inserted (fence) >= 5 ms before the first future due time, otherwise retried with a longer lead; "
+               "the kernel timer is modelled as one re-armable absolute timer (io_uring's activeTimerCount_ bookkeeping is not modelled)")
     if os.environ.get("TIMER_ONLY", "") in ("", "tst"):
         run_tst(ctx)
     if os.environ.get("TIMER_ONLY", "") in ("", "tul"):
